@@ -593,64 +593,13 @@ func checkC15(r *Result) {
 	// iteration; big.Int methods return their receiver, so a scratch value reused across iterations makes
 	// every collected element point at the last one
 	{
-		nSites := 0
-		for _, fn := range P.RepoFuncs {
-			if fn.Pkg == nil || !strings.HasSuffix(fn.Pkg.Pkg.Path(), "/x/bridge/keeper") {
-				continue
-			}
-			for _, b := range fn.Blocks {
-				if !inLoop(fn, b) {
-					continue
-				}
-				for _, in := range b.Instrs {
-					st, ok := in.(*ssa.Store)
-					if !ok || st.Val.Type().String() != "*math/big.Int" {
-						continue
-					}
-					if _, isField := st.Addr.(*ssa.FieldAddr); !isField {
-						if _, isIdx := st.Addr.(*ssa.IndexAddr); !isIdx {
-							continue
-						}
-					}
-					nSites++
-					// trace the pointer to its allocation through receiver-returning big.Int methods
-					v := st.Val
-					origin := ""
-					var at *ssa.BasicBlock
-					for i := 0; i < 8 && v != nil; i++ {
-						switch x := v.(type) {
-						case *ssa.Call:
-							name := CalleeName(x.Common())
-							switch {
-							case name == "math/big.NewInt":
-								origin, at, v = "big.NewInt", x.Block(), nil
-							case strings.HasPrefix(name, "(*math/big.Int)."):
-								v = x.Call.Args[0]
-							default:
-								origin, at, v = "call "+short(name), x.Block(), nil
-							}
-						case *ssa.Alloc:
-							origin, at, v = "new(big.Int)", x.Block(), nil
-						case *ssa.Extract:
-							v = x.Tuple
-						case *ssa.Phi:
-							origin, at, v = "phi", x.Block(), nil
-						default:
-							origin, v = fmt.Sprintf("%T", x), nil
-						}
-					}
-					var h *ssa.BasicBlock
-					for _, hh := range loopHeaders(fn) {
-						if hh.Dominates(b) && (h == nil || h.Dominates(hh)) {
-							h = hh
-						}
-					}
-					fresh := at != nil && h != nil && h.Dominates(at) && inLoop(fn, at) && origin != "phi"
-					r.check(fresh, "ABI-VALUES", FuncName(TopFunc(fn))+" # a *big.Int stored into a collected element is allocated in the same iteration", P.Pos(st.Pos()), "origin: "+origin+fmt.Sprintf(" ; in this iteration: %v", fresh))
-				}
-			}
+		sites := bigIntLoopSites(P, func(fn *ssa.Function) bool {
+			return fn.Pkg != nil && strings.HasSuffix(fn.Pkg.Pkg.Path(), "/x/bridge/keeper")
+		})
+		for _, s := range sites {
+			r.check(s.fresh, "ABI-VALUES", s.fn+" # a *big.Int stored into a collected element is allocated in the same iteration", s.pos, "origin: "+s.origin+fmt.Sprintf(" ; in this iteration: %v", s.fresh))
 		}
-		r.check(nSites >= 1, "ABI-VALUES", "sites where a *big.Int is stored inside a loop of the bridge keeper", "-", fmt.Sprint(nSites))
+		r.check(len(sites) >= 1, "ABI-VALUES", "sites where a *big.Int is stored inside a loop of the bridge keeper", "-", fmt.Sprint(len(sites)))
 	}
 	r.minCount("ABI-VALUES", 2)
 	r.minCount("ABI-TYPES", 9)
@@ -688,4 +637,71 @@ func everyIterationPassesInstr(fn *ssa.Function, pred func(ssa.Instruction) bool
 		}
 	}
 	return n, ""
+}
+
+type bigIntSite struct {
+	fn, pos, origin string
+	fresh           bool
+}
+
+// bigIntLoopSites lists the stores of a *big.Int into a struct field or slice element inside a loop, with
+// whether the pointer stored was allocated in the same iteration (big.Int methods return their receiver).
+func bigIntLoopSites(P *Prog, want func(*ssa.Function) bool) []bigIntSite {
+	var out []bigIntSite
+	for _, fn := range P.RepoFuncs {
+		if !want(fn) {
+			continue
+		}
+		for _, b := range fn.Blocks {
+			if !inLoop(fn, b) {
+				continue
+			}
+			for _, in := range b.Instrs {
+				st, ok := in.(*ssa.Store)
+				if !ok || st.Val.Type().String() != "*math/big.Int" {
+					continue
+				}
+				if _, isField := st.Addr.(*ssa.FieldAddr); !isField {
+					if _, isIdx := st.Addr.(*ssa.IndexAddr); !isIdx {
+						continue
+					}
+				}
+				// trace the pointer to its allocation through receiver-returning big.Int methods
+				v := st.Val
+				origin := ""
+				var at *ssa.BasicBlock
+				for i := 0; i < 8 && v != nil; i++ {
+					switch x := v.(type) {
+					case *ssa.Call:
+						name := CalleeName(x.Common())
+						switch {
+						case name == "math/big.NewInt":
+							origin, at, v = "big.NewInt", x.Block(), nil
+						case strings.HasPrefix(name, "(*math/big.Int)."):
+							v = x.Call.Args[0]
+						default:
+							origin, at, v = "call "+short(name), x.Block(), nil
+						}
+					case *ssa.Alloc:
+						origin, at, v = "new(big.Int)", x.Block(), nil
+					case *ssa.Extract:
+						v = x.Tuple
+					case *ssa.Phi:
+						origin, at, v = "phi", x.Block(), nil
+					default:
+						origin, v = fmt.Sprintf("%T", x), nil
+					}
+				}
+				var h *ssa.BasicBlock
+				for _, hh := range loopHeaders(fn) {
+					if hh.Dominates(b) && (h == nil || h.Dominates(hh)) {
+						h = hh
+					}
+				}
+				fresh := at != nil && h != nil && h.Dominates(at) && inLoop(fn, at) && origin != "phi"
+				out = append(out, bigIntSite{FuncName(TopFunc(fn)), P.Pos(st.Pos()), origin, fresh})
+			}
+		}
+	}
+	return out
 }
